@@ -30,6 +30,41 @@ func DefaultCase(r *rand.Rand, name string, o DefaultOpts) *Case {
 	inS := decl("InnerS", Struct(F("X", Basic("int"))))
 	inT := decl("InnerT", Struct(F("X", Basic("int"))))
 	ctxD := decl("Ctx", Struct(F("ID", Basic("string"))))
+	if r.Intn(9) == 0 {
+		// S -> *T where a target field has no source (ignoreMissing): it keeps FUNC's value - also when S is recursive
+		rec := r.Intn(2) == 0
+		rsU := Struct(F("V", Basic("int")))
+		rtU := Struct(F("V", Basic("int")), F("Keep", Basic("string")))
+		rs := decl("RS", rsU)
+		rt := decl("RT", rtU)
+		if rec {
+			rsU.Fields = append(rsU.Fields, F("Kids", Slice(Named(rs))))
+			rtU.Fields = append(rtU.Fields, F("Kids", Slice(Named(rt))))
+		}
+		conv.Files["ctor.go"] = fmt.Sprintf("package conv\n\nimport \"%s/ty\"\n\nfunc NewT() *ty.RT {\n\treturn &ty.RT{Keep: \"kept\"}\n}\n", c.Root)
+		cv := &Converter{Pkg: conv, File: "conv.go", Name: "Converter", Format: o.Format, Lines: []string{"ignoreMissing"}, OutPkgPath: "conv/generated", OutPkgName: "generated", ImplName: "ConverterImpl",
+			Callables: map[string]string{"fn:NewT": "conv.NewT"}, GlueImports: []string{fmt.Sprintf("conv %q", c.Root+"/conv")}}
+		if o.Format == "variables" {
+			cv.OutPkgPath, cv.OutPkgName = "conv", "conv"
+			cv.Callables["fn:NewT"] = "gen.NewT"
+			cv.GlueImports = nil
+		}
+		fl := vref.Flags{IgnoreMissing: true}
+		cv.Methods = append(cv.Methods, &Method{Name: "M", Params: []Param{{Name: "source", T: Named(rs), Role: "source"}}, Result: Ptr(Named(rt)), Lines: []string{"default NewT"},
+			Spec: &vref.MethodSpec{Name: "M", Roles: []string{"source"}, Flags: fl, Default: "fn:NewT"}})
+		nv := o.NValues
+		if nv == 0 {
+			nv = 40
+		}
+		cv.Spec = &vref.Spec{Seed: o.Seed, NValues: nv, Monitors: []string{"default"}, Conv: fl, Funcs: []*vref.FuncSpec{{Key: "fn:NewT", Kind: "default", Roles: []string{}}}}
+		c.Convs = []*Converter{cv}
+		c.Patterns = []string{"./conv"}
+		c.Feature("shape", fmt.Sprintf("missingfield,recursive=%v", rec))
+		c.Feature("fn", "source=false,ctx=false,err=false")
+		c.Feature("recursivedefault", fmt.Sprint(rec))
+		c.Feature("format", o.Format)
+		return c
+	}
 	if r.Intn(5) == 0 {
 		// container targets: a map or a slice method with default FUNC starts from FUNC's result, too
 		isMap := r.Intn(2) == 0
